@@ -20,7 +20,23 @@ def nlist(l):
     return '[%s]' % '; '.join(l)
 
 
+def qci(x):
+    """Coq literal in Qc[i] of 'a/b' or 'C:a/b:c/d'"""
+    x = str(x)
+    if x.startswith('C:'):
+        _, re_, im_ = x.split(':')
+    else:
+        re_, im_ = x, '0'
+    re_, im_ = Fraction(re_), Fraction(im_)
+    return '(qi (%d) %d (%d) %d)' % (re_.numerator, re_.denominator, im_.numerator, im_.denominator)
+
+
 class Enc:
+    cplx = False
+
+    def num(self, x):
+        return qci(x) if self.cplx else qc(x)
+
     def __init__(self, orig):
         self.name_id = {e['name']: i for i, e in enumerate(orig)}
         self.node_id = {'0': 0}
@@ -69,12 +85,16 @@ class Enc:
             v = '0'
         ic = 'None'
         if ty in ('TC', 'TL') and e.get('has_ic'):
-            if len(vals) > 1 and vals[1] is not None:
-                ic = '(Some %s)' % qc(vals[1])
+            if len(vals) > 1 and vals[1] is not None and (self.cplx or not str(vals[1]).startswith('C:')):
+                ic = '(Some %s)' % self.num(vals[1])
             else:
                 self.bad = 'no rational initial condition for ' + e['name']
-        return '(ElemQ %s %s %s %s %s %s)' % ('(NWire 0)' if ty == 'TW' else self.name(e['name']), ty, nlist(str(self.node(n)) for n in e['nodes']),
-                                            self.kw(e) if ty in ('TV', 'TI') else 'KwNone', qc(v), ic)
+        if not self.cplx and str(v).startswith('C:'):
+            self.bad = 'complex value for ' + e['name']
+            v = '0'
+        return '(%s %s %s %s %s %s %s)' % ('ElemI' if self.cplx else 'ElemQ', '(NWire 0)' if ty == 'TW' else self.name(e['name']), ty,
+                                           nlist(str(self.node(n)) for n in e['nodes']),
+                                           self.kw(e) if ty in ('TV', 'TI') else 'KwNone', self.num(v), ic)
 
     def net(self, elems):
         out = []
